@@ -91,7 +91,11 @@ func HarnessNorm(name string, length int) float32 {
 	for i := 0; i < len(name); i++ {
 		s += uint64(name[i])
 	}
-	bits := uint32(1056964608 + (uint64(length)*131+s)%1048576)
+	base := uint64(1056964608) // floats in [0.5, 0.5625)
+	if length%3 == 0 {
+		base = 1073741824 // floats in [2.0, 2.25): bit 30 of the pattern is set
+	}
+	bits := uint32(base + (uint64(length)*131+s)%1048576)
 	return math.Float32frombits(bits)
 }
 
